@@ -478,7 +478,7 @@ pub fn generate(tier: &str, seed: u64) -> Vec<String> {
     for h in 0..nh {
         let kind = match h % 5 { 0 => "fs", 1 => "os_mem", 2 => "od_mem", _ => "memory" };
         out.push(format!("c13 cfg store={}", kind));
-        let names = ["a", "b", "c", "g1", "__x", "zarr", "x.y"];
+        let names = ["a", "b", "c", "g1", "__x", "zarr", "x.y", "t__2m"];
         let mut paths: Vec<String> = vec!["/".to_string()];
         let nops = rng.range(4, if thorough { 40 } else { 20 });
         for _ in 0..nops {
